@@ -14,7 +14,7 @@ PROP = "C14"
 LEVEL = "model_checking"
 RULE = (
     "X-SEQ on the real daemon code (mod_daemon.main / process_input) with an instrumented stdin and captured reply stream: every "
-    "sequence of input lines of length <= 3 (quick) / <= 4 (thorough) over an alphabet of 18 line classes (valid request; valid request of 100 kB on one line; valid with "
+    "sequence of input lines of length <= 3 (quick) / <= 4 (thorough) over an alphabet of 19 line classes (incl. lines that merely begin with EXIT) (valid request; valid request of 100 kB on one line; valid with "
     "CRLF and extra keys; valid multi-module; invalid base64; base64 of non-UTF-8 bytes; base64 of non-JSON; JSON array; JSON "
     "scalar/null; unknown action; missing code; code of the wrong type; unknown option name / options null; source that drives the "
     "compiler into its internal-error path; source with a syntax error; well-formed requests whose echoed fields carry a lone surrogate; blank line; EXIT) is fed to a fresh run of main(); the "
@@ -80,12 +80,15 @@ def make_line(cls, k):
         return "" if k % 2 else "   \t"
     if cls == "constexpr-prints":
         return b64({"action": "compile", "code": {"": f"@constexpr\ndef cx(a):\n    print('hello from constexpr')\n    return a\ndb.Setting = cx({const})\n"}, "options": {}})
+    if cls == "exit-lookalike":
+        # not the shutdown command: a malformed request like any other (one error reply, the daemon keeps serving)
+        return ["EXITAAAA", "EXIT0", "exit", "EXIT EXIT", "xEXIT"][k % 5]
     if cls == "EXIT":
         return "EXIT"
     raise KeyError(cls)
 
 
-ALPHABET = ["valid", "valid-crlf-extra", "valid-modules", "valid-huge", "bad-base64", "non-utf8", "non-json", "json-array", "json-scalar", "unknown-action", "missing-code", "code-wrong-type", "bad-options", "internal-error", "syntax-error", "echo-surrogate", "blank", "EXIT"]
+ALPHABET = ["valid", "valid-crlf-extra", "valid-modules", "valid-huge", "bad-base64", "non-utf8", "non-json", "json-array", "json-scalar", "unknown-action", "missing-code", "code-wrong-type", "bad-options", "internal-error", "syntax-error", "echo-surrogate", "exit-lookalike", "blank", "EXIT"]
 VALID = {"valid", "valid-crlf-extra", "valid-modules", "valid-huge"}
 COMPILES = VALID | {"internal-error", "syntax-error", "constexpr-prints"}
 
@@ -262,7 +265,7 @@ def build_cases(tier):
         ("valid-modules", "valid-crlf-extra", "valid", "valid-modules"), ("syntax-error", "constexpr-prints", "valid", "EXIT"), ("valid",) * 6, ("bad-base64",) * 5 + ("valid",),
     ]
     if tier == "thorough":
-        cover += [h for h in itertools.product(["valid", "bad-base64", "blank", "internal-error", "EXIT"], repeat=3)]
+        cover += [h for h in itertools.product(["valid", "bad-base64", "blank", "internal-error", "exit-lookalike", "EXIT"], repeat=3)]
     conf += cover
     if tier == "quick":
         conf = conf[::3] + cover
